@@ -168,6 +168,29 @@ pub fn generate(args: &Args, rng: &mut Rng, out: &mut Streams, dist: &mut Dist) 
     emit_spaced_parse(out, dist, s);
   }
 
+  // 1b. exhaustive small scope (`--exhaustive L`, default 0 = off; once, by shard 0): every
+  // string of length <= L over {A,B,Z} to the name parser and over {A,Z,.,•} to the spaced parser
+  let exh: usize = args.get("exhaustive").map(|v| v.parse().unwrap()).unwrap_or(0);
+  if exh > 0 {
+    for (spaced, alpha) in [(false, &['A', 'B', 'Z'][..]), (true, &['A', 'Z', '.', '•'][..])] {
+      let k = alpha.len();
+      for len in 0..=exh {
+        for mut x in 0..k.pow(len as u32) {
+          let mut s = String::with_capacity(len * 3);
+          for _ in 0..len {
+            s.push(alpha[x % k]);
+            x /= k;
+          }
+          if spaced {
+            emit_spaced_parse(out, dist, &s);
+          } else {
+            emit_rune_parse(out, dist, &s);
+          }
+          dist.hit(if spaced { "exhaustive_spaced" } else { "exhaustive_name" });
+        }
+      }
+    }
+  }
   // 2. random
   for case in 0..args.cases {
     match case % 5 {
